@@ -594,7 +594,8 @@ Expressible(p, n) == p \in GopherViews => (n # "" /\ Last1(n) \notin cWS /\ \A x
 CaseExpressible(p, c) == Expressible(p, c.n) /\ (c.k \in {"dir", "mapdir", "zip"} => Expressible(p, c.m))
 
 \* deviations of the pinned code that are recorded as findings (known_findings.json); everything else must hold
-KnownWhy == {"CapturedBy_WAPProtocol", "CapturedBy_SpartanProtocol", "QueryPrefixCapture", "UrlNameAsReference",
+\* (CapturedBy_SpartanProtocol - a Gopher selector of the shape "host path length" - is repaired by c3ed498)
+KnownWhy == {"CapturedBy_WAPProtocol", "QueryPrefixCapture", "UrlNameAsReference",
              "IconRouteCapture", "MapFileAsDocument"}
 Closure(p, c, hl) == CaseExpressible(p, c) => \A f \in Failing(p, c, hl) : f[3] \in KnownWhy
 ClosureStrict(p, c, hl) == CaseExpressible(p, c) => Failing(p, c, hl) = {}
